@@ -638,7 +638,29 @@ func rasterCollider(r *vlib.Run) {
 		}
 		withProcs(1, func() { a = rast.RasterizeSolid(model2d.NewColliderSolidHollow(coll, 0.5*rast.LineWidth/rast.Scale)) })
 		withProcs(p, func() { b = rast.RasterizeCollider(coll) })
-		cmp("model2d.Rasterizer.RasterizeCollider/same-image", a, b)
+		if !cmp("model2d.Rasterizer.RasterizeCollider/same-image", a, b) {
+			return
+		}
+		// the type-dispatching entry point draws the same pictures: a mesh and a collider as line
+		// drawings, a solid filled
+		if c.Index%2 == 0 {
+			var d *image.Gray
+			withProcs(p, func() { d = rast.Rasterize(poly) })
+			if !cmp("model2d.Rasterizer.Rasterize[*Mesh]/same-image-as-RasterizeCollider", b, d) {
+				return
+			}
+			withProcs(p, func() { d = rast.Rasterize(coll) })
+			if !cmp("model2d.Rasterizer.Rasterize[Collider]/same-image-as-RasterizeCollider", b, d) {
+				return
+			}
+			sol := model2d.NewColliderSolid(coll)
+			withProcs(1, func() { a = rast.RasterizeSolid(sol) })
+			withProcs(p, func() { d = rast.Rasterize(sol) })
+			if !cmp("model2d.Rasterizer.Rasterize[Solid]/same-image-as-RasterizeSolid", a, d) {
+				return
+			}
+			c.Count("raster.collider.dispatch_comparisons", 3)
+		}
 		if sub > 16 {
 			c.Count("raster.collider.cases_with_more_than_16_subsamples", 1)
 		}
